@@ -119,8 +119,16 @@ def run_job(job, deadline):
             t = [real(f"t{i}") for i in range(n)]
             p = [real(f"p{i}") for i in range(n)]
             s = [real(f"s{i}") for i in range(n)]
-            sf = pd.DataFrame({f"S{j}": sf_cols[j] for j in range(nsf)}) if nsf > 1 else sf_cols[0]
-            cf = None if ncf == 0 else (pd.DataFrame({f"C{j}": cf_cols[j] for j in range(ncf)}) if ncf > 1 else np.array(cf_cols[0], dtype=object))
+            # every third structure hands the features over as pandas objects whose index labels are NOT 0..n-1 in order
+            # (rows of a shuffled frame): rows are matched by position, never by label
+            idx = list(range(n))[::-1] if si % 3 == 1 else (list(range(7, 7 + n)) if si % 3 == 2 else None)
+            if idx is None:
+                sf = pd.DataFrame({f"S{j}": sf_cols[j] for j in range(nsf)}) if nsf > 1 else sf_cols[0]
+                cf = None if ncf == 0 else (pd.DataFrame({f"C{j}": cf_cols[j] for j in range(ncf)}) if ncf > 1 else np.array(cf_cols[0], dtype=object))
+            else:
+                sf = pd.DataFrame({f"S{j}": sf_cols[j] for j in range(nsf)}, index=idx) if nsf > 1 else pd.Series(sf_cols[0], index=idx, name="sensitive_feature_0")
+                cf = None if ncf == 0 else (pd.DataFrame({f"C{j}": cf_cols[j] for j in range(ncf)}, index=idx) if ncf > 1
+                                            else pd.Series(cf_cols[0], index=idx, name="control_feature_0"))
             try:
                 if job["form"] == "callable":
                     mf = MetricFrame(metrics=metric_g, y_true=np.array(t, dtype=object), y_pred=p, sensitive_features=sf, control_features=cf,
@@ -142,7 +150,7 @@ def run_job(job, deadline):
                 return e
 
         def on_ok(ctx, out, struct=struct, si=si):
-            ex = {"struct": struct}
+            ex = {"struct": struct, "si": si}
             if isinstance(out, Exception):
                 acc.exception_cex(ctx, out, signature=f"exception:{type(out).__name__}:n{'1' if n == 1 else '>1'}", extra=ex)
                 return
@@ -248,8 +256,14 @@ def replay(cex):
 
     colvals = [[_labels(job["labels"], c, lev) for lev in col] for c, col in enumerate(struct)]
     sf_cols, cf_cols = colvals[:nsf], colvals[nsf:]
-    sf = pd.DataFrame({f"S{j}": sf_cols[j] for j in range(nsf)}) if nsf > 1 else sf_cols[0]
-    cf = None if ncf == 0 else (pd.DataFrame({f"C{j}": cf_cols[j] for j in range(ncf)}) if ncf > 1 else np.array(cf_cols[0], dtype=object))
+    si = cex["extra"].get("si", 0)
+    idx = list(range(n))[::-1] if si % 3 == 1 else (list(range(7, 7 + n)) if si % 3 == 2 else None)
+    if idx is None:
+        sf = pd.DataFrame({f"S{j}": sf_cols[j] for j in range(nsf)}) if nsf > 1 else sf_cols[0]
+        cf = None if ncf == 0 else (pd.DataFrame({f"C{j}": cf_cols[j] for j in range(ncf)}) if ncf > 1 else np.array(cf_cols[0], dtype=object))
+    else:
+        sf = pd.DataFrame({f"S{j}": sf_cols[j] for j in range(nsf)}, index=idx) if nsf > 1 else pd.Series(sf_cols[0], index=idx, name="sensitive_feature_0")
+        cf = None if ncf == 0 else (pd.DataFrame({f"C{j}": cf_cols[j] for j in range(ncf)}, index=idx) if ncf > 1 else pd.Series(cf_cols[0], index=idx, name="control_feature_0"))
     bad = []
     try:
         if job["form"] == "callable":
